@@ -1,7 +1,9 @@
 (** C01 for the covered operations: a transaction that starts in an
-    [initial] state, performs covered simple operations (each leaving no
-    tracked path with another type) and is then rolled back, restores the
-    base view and empties the backup ([c01_stmt] of Spec/CopySpecs.v).
+    [initial] state, performs covered operations ([covered] of Spec/Inv.v,
+    each leaving no tracked path with another type) and is then rolled back,
+    restores the base view and empties the backup ([c01_stmt] of
+    Spec/CopySpecs.v).  The base filesystem has to satisfy the reading laws of
+    Spec/Laws2.v next to those of Spec/Laws.v.
 
     [initial_inv_spec]: the initial state satisfies the invariant.
     [good_run_inv]: the invariant is kept along a [good_run] ([step_spec]).
@@ -37,17 +39,18 @@ Qed.
 (** the invariant is kept along a good run *)
 Lemma good_run_inv :
   forall base backup Vb Vk tnb tnk accb acck rhb rhk whb whk B0,
-  base_laws base Vb Vk tnb accb rhb whb -> backup_laws backup Vb Vk tnk acck rhk whk ->
+  base_laws base Vb Vk tnb accb rhb whb -> base_laws2 base Vb Vk tnb accb rhb whb ->
+  backup_laws backup Vb Vk tnk acck rhk whk ->
   links_ok tnb tnk accb acck B0 -> all_small B0 -> swf B0 ->
   forall w ops w', good_run base backup Vb w ops w' -> Inv Vb Vk B0 w -> Inv Vb Vk B0 w'.
 Proof.
-  intros base backup Vb Vk tnb tnk accb acck rhb rhk whb whk B0 HLb HLk Hlinks Hsmall HwfB
+  intros base backup Vb Vk tnb tnk accb acck rhb rhk whb whk B0 HLb HLb2 HLk Hlinks Hsmall HwfB
          w ops w' Hrun.
   induction Hrun as [w | w o ops r w1 w2 Hcov Hstep Hks Hrest IH]; intros HI.
   - exact HI.
   - apply IH.
     destruct (step_spec base backup Vb Vk tnb tnk accb acck rhb rhk whb whk B0
-                HLb HLk Hlinks Hsmall HwfB o w HI Hcov) as (r' & w1' & Hstep' & _ & Hinv & _).
+                HLb HLb2 HLk Hlinks Hsmall HwfB o w HI Hcov) as (r' & w1' & Hstep' & _ & Hinv & _).
     rewrite Hstep in Hstep'. injection Hstep' as Er Ew. subst r' w1'.
     exact (Hinv Hks).
 Qed.
@@ -57,11 +60,11 @@ Theorem c01_spec :
   c01_stmt base backup Vb Vk tnb tnk accb acck rhb rhk whb whk B0.
 Proof.
   intros base backup Vb Vk tnb tnk accb acck rhb rhk whb whk B0.
-  unfold c01_stmt. cbv zeta. intros HLb HLk Hsmall w0 ops w Hinit Hrun.
+  unfold c01_stmt. cbv zeta. intros HLb HLb2 HLk Hsmall w0 ops w Hinit Hrun.
   pose proof Hinit as (_ & _ & _ & HwfB & Hlinks & _ & _).
   pose proof (initial_inv_spec Vb Vk tnb tnk accb acck B0 w0 Hinit) as HI0.
   pose proof (good_run_inv base backup Vb Vk tnb tnk accb acck rhb rhk whb whk B0
-                HLb HLk Hlinks Hsmall HwfB w0 ops w Hrun HI0) as HI.
+                HLb HLb2 HLk Hlinks Hsmall HwfB w0 ops w Hrun HI0) as HI.
   destruct (rollback_spec base backup Vb Vk tnb tnk accb acck rhb rhk whb whk B0
               HLb HLk Hlinks Hsmall HwfB w HI) as (w' & Hrb & _ & Hb & Hk & Hi).
   exists w'. split; [exact Hrb |]. split; [exact Hb |]. split; [exact Hk | exact Hi].
